@@ -1,5 +1,7 @@
 #!/usr/bin/env python3
 """Regenerate /verif/MANIFEST.json from the harness modules (run with .venv/bin/python)."""
+import os
+os.environ["VERIF_DESCRIBE_ONLY"] = "1"
 import importlib, json, os, sys
 ROOT = os.path.dirname(os.path.dirname(os.path.abspath(__file__)))
 sys.path.insert(0, ROOT); sys.path.insert(0, "/repo")
